@@ -129,6 +129,13 @@ func (Engine) Generate(r *core.Rng, property, tier string) *core.Plan {
 		}
 		p.Add(s)
 	}
+	if r.Bool(0.3) {
+		// the configured starting bits (PowLimitBits) name a harder target than
+		// the limit itself (PowLimit / 2^floor), as the shipped parameters do
+		// (limit 2^255-1, starting bits 0x1f0008ff): the chain starts there and
+		// retargets may ease up to the limit
+		p.SetKnob("floor", int64(r.Range(1, 6)))
+	}
 	return p
 }
 
@@ -210,6 +217,7 @@ type run struct {
 	nEnc      int
 	divisible bool
 	stop      bool
+	limitBits uint32 // compact form of the limit (the configured starting bits may name a harder target)
 }
 
 func (r *run) violate(oracle, sig, format string, a ...interface{}) {
@@ -350,12 +358,19 @@ func execute(c *core.Ctx) {
 		span = tpb
 	}
 	params := &config.Configuration{}
-	params.PowConfiguration.PowLimitBits = limitBits
+	startBits := limitBits
+	if fl := p.Knob("floor", 0); fl > 0 {
+		if sb := refEncode(new(big.Int).Rsh(refDecode(limitBits), uint(fl))); refDecode(sb).Sign() > 0 {
+			startBits = sb
+			c.Fault("starting-bits-harder-than-the-limit")
+		}
+	}
+	params.PowConfiguration.PowLimitBits = startBits
 	params.PowConfiguration.PowLimit = refDecode(limitBits)
 	params.PowConfiguration.TargetTimespan = time.Duration(span) * time.Second
 	params.PowConfiguration.TargetTimePerBlock = time.Duration(tpb) * time.Second
 	params.PowConfiguration.AdjustmentFactor = af
-	r := &run{c: c, params: params, limit: params.PowConfiguration.PowLimit, af: af, per: uint32(span / tpb), seenC: map[uint32]bool{}, divisible: span%af == 0}
+	r := &run{c: c, params: params, limit: params.PowConfiguration.PowLimit, af: af, per: uint32(span / tpb), seenC: map[uint32]bool{}, divisible: span%af == 0, limitBits: limitBits}
 	r.chain = blockchain.VerifNewRetargetChain(params)
 	miners := int(p.Knob("miners", 1))
 	if miners < 1 {
@@ -380,10 +395,10 @@ func execute(c *core.Ctx) {
 
 	// genesis
 	t0 := time.Now()
-	gen := &tcommon.Header{Version: 0, Timestamp: uint32(t0.Unix()), Bits: limitBits, Height: 0}
+	gen := &tcommon.Header{Version: 0, Timestamp: uint32(t0.Unix()), Bits: startBits, Height: 0}
 	gh := gen.Hash()
 	r.tip = blockchain.NewBlockNode(gen, &gh)
-	lastGoodBits := limitBits
+	lastGoodBits := startBits
 	slow := false
 	for i := range steps {
 		if r.stop {
@@ -491,7 +506,7 @@ func (r *run) mine(s *Step, m int, ts uint32, lastGoodBits *uint32) {
 		mustFail = true
 	case "above-limit":
 		// a target above the limit: bump the mantissa or the exponent of the limit
-		lb := r.params.PowConfiguration.PowLimitBits
+		lb := r.limitBits
 		if s.X%2 == 0 && lb&0x007fffff < 0x007fffff {
 			bits = lb + 1 + s.X%(0x007fffff-lb&0x007fffff)
 		} else {
